@@ -126,6 +126,9 @@ pub fn replay(property: &str, case: &serde_json::Value) -> Result<(), String> {
     if case["kind"].as_str() == Some("history") {
         return hist::replay(case);
     }
+    if case["kind"].as_str() == Some("keypair") {
+        return hist::replay_pair(case);
+    }
     match property {
         "C01" => c01::replay(case),
         "C04" => c04::replay(case),
@@ -160,6 +163,7 @@ pub fn run(property: &str, ctx: &Ctx, rep: &mut Report) -> Result<(), String> {
         "C15" => {
             purity::run(ctx, rep); // first, while the process is still single-threaded
             hist::run("C15", ctx, rep);
+            hist::run_pairs(ctx, rep);
         }
         "C16" => c16::run(ctx, rep),
         "C19" => c19::run(ctx, rep),
